@@ -6,6 +6,23 @@ import os
 VERIF = os.path.dirname(os.path.dirname(os.path.abspath(__file__)))
 
 CHECKS = {
+    "C13": {
+        "text": "Every position of one control component (11 forms of stop/skip/advance/last) among 1-2 (thorough: 1-3) side-effecting "
+        "marker components x every file of <=4 (5) records over {firing, non-firing, blank} x scan windows, run on the real "
+        "interpreter and compared with the run machine in models/refinterp.py: returned lines, every marker stack, printouts, "
+        "scan_count, match_count.",
+        "design": "3 / C13",
+        "note": "trusted: models/refinterp.py run machine (from docs/functions/stop.md, advance.md, last.md and the statement); not asserted: scan's final line being blank",
+        "technique": "bounded exhaustive enumeration of programs x files x scan windows on the real interpreter against a lock-step reference interpreter",
+    },
+    "C07": {
+        "text": "For every generated csvpath (control programs, singles and ordered pairs of 20 writer/print/fail/skip components, both return modes) "
+        "x every file of <=3 (4) records x scan windows: collect(), next() and fast_forward() on fresh instances must leave identical "
+        "observation records, and for every n in 1..matches+1 collect(nexts=n) must equal a next() generator advanced n yields.",
+        "design": "3 / C07",
+        "note": "differential oracle, no reference model; trusted: the harness's observation record (variables incl. private keys, counters, validity, stopped, errors, printouts)",
+        "technique": "bounded exhaustive differential exploration of the three run methods and every prefix length n on the real code",
+    },
     "C14": {
         "text": "All 256 subsets of the eight assignment qualifiers x all value sequences the property names x rest-of-line matching or not, "
         "each executed as a real csvpath over a 3-record file and compared with the 25-line decision table in models/refassign.py "
